@@ -397,6 +397,35 @@ def _paren(s):
     return s if (s.startswith("(") and _balanced(s)) else "(" + s + ")"
 
 
+# LOOSE rendering (C05): the AST optimizer of boa matches literal operands and literal conditions syntactically, and a
+# parenthesised literal is a different node.  With LOOSE set, atomic operands (identifiers, non-negative numbers, strings,
+# booleans, null, this) are written bare and an operator expression in a delimited position (condition, initializer,
+# argument, return/throw operand, case test) loses its outermost parentheses.  Everything else stays fully parenthesised,
+# so the text still means exactly what the AST says.
+LOOSE = False
+_STRIPPABLE = ("binary", "logical", "cond", "unary", "update", "call", "member", "new", "lit")
+
+
+def _atomic(e):
+    if e["t"] in ("ident", "this"):
+        return True
+    return e["t"] == "lit" and not _lit(e["val"]).startswith("(")
+
+
+def _opnd(e):
+    """operand of a unary / binary / logical / conditional operator"""
+    s = rx(e)
+    return s if (LOOSE and _atomic(e)) else _paren(s)
+
+
+def _top(e):
+    """expression in a position delimited by the surrounding syntax"""
+    s = rx(e)
+    if LOOSE and e["t"] in _STRIPPABLE and not (e["t"] == "binary" and e.get("op") == "in") and s.startswith("(") and _balanced(s):
+        return s[1:-1]
+    return s
+
+
 def _balanced(s):
     d = 0
     for i, ch in enumerate(s):
@@ -410,7 +439,7 @@ def _balanced(s):
 
 
 def _args(args):
-    return ", ".join(("..." + rx(a["e"])) if a["t"] == "spread" else rx(a) for a in args)
+    return ", ".join(("..." + rx(a["e"])) if a["t"] == "spread" else _top(a) for a in args)
 
 
 def rref(e):
@@ -513,13 +542,13 @@ def rx(e):
         op = e["op"]
         if op in ("typeof", "delete"):
             return "(" + op + " " + rref(e["e"]) + ")"
-        return "(" + op + (" " if op == "void" else "") + _paren(rx(e["e"])) + ")"
+        return "(" + op + (" " if op == "void" else "") + _opnd(e["e"]) + ")"
     if t == "update":
         return "(" + (e["op"] + rref(e["target"]) if e["prefix"] else rref(e["target"]) + e["op"]) + ")"
     if t in ("binary", "logical"):
-        return "(" + _paren(rx(e["l"])) + " " + e["op"] + " " + _paren(rx(e["r"])) + ")"
+        return "(" + _opnd(e["l"]) + " " + e["op"] + " " + _opnd(e["r"]) + ")"
     if t == "cond":
-        return "(" + _paren(rx(e["c"])) + " ? " + _paren(rx(e["a"])) + " : " + _paren(rx(e["b"])) + ")"
+        return "(" + _opnd(e["c"]) + " ? " + _opnd(e["a"]) + " : " + _opnd(e["b"]) + ")"
     if t == "seq":
         return "(" + ", ".join(_paren(rx(x)) for x in e["es"]) + ")"
     if t == "assign":
@@ -540,7 +569,7 @@ def rx(e):
 
 
 def _decls(kind, ds):
-    return kind + " " + ", ".join(rpat(d["target"]) + (" = " + rx(d["init"]) if d.get("init") else "") for d in ds)
+    return kind + " " + ", ".join(rpat(d["target"]) + (" = " + _top(d["init"]) if d.get("init") else "") for d in ds)
 
 
 def rs(s):
@@ -559,17 +588,17 @@ def rs(s):
     if t == "block":
         return _body(s["body"])
     if t == "if":
-        return "if (" + rx(s["c"]) + ") " + rs(s["a"]) + (" else " + rs(s["b"]) if s.get("b") else "")
+        return "if (" + _top(s["c"]) + ") " + rs(s["a"]) + (" else " + rs(s["b"]) if s.get("b") else "")
     if t == "empty":
         return ";"
     if t == "while":
-        return "while (" + rx(s["c"]) + ") " + rs(s["s"])
+        return "while (" + _top(s["c"]) + ") " + rs(s["s"])
     if t == "dowhile":
-        return "do " + rs(s["s"]) + " while (" + rx(s["c"]) + ");"
+        return "do " + rs(s["s"]) + " while (" + _top(s["c"]) + ");"
     if t == "for":
         i = s.get("init")
         init = "" if not i else (_decls(i["t"], i["decls"]) if i["t"] in ("var", "let", "const") else rx(i["e"] if i["t"] == "expr" else i))
-        return "for (" + init + "; " + (rx(s["c"]) if s.get("c") else "") + "; " + (rx(s["update"]) if s.get("update") else "") + ") " + rs(s["s"])
+        return "for (" + init + "; " + (_top(s["c"]) if s.get("c") else "") + "; " + (_top(s["update"]) if s.get("update") else "") + ") " + rs(s["s"])
     if t in ("forin", "forof"):
         head = ("" if s["kind"] == "assign" else s["kind"] + " ") + rpat(s["target"])
         subj = rx(s["obj"]) if t == "forin" else rx(s["iter"])
@@ -579,9 +608,9 @@ def rs(s):
     if t in ("break", "continue"):
         return t + (" " + s["l"] if s.get("l") else "") + ";"
     if t == "return":
-        return "return" + (" " + rx(s["e"]) if s.get("e") else "") + ";"
+        return "return" + (" " + _top(s["e"]) if s.get("e") else "") + ";"
     if t == "throw":
-        return "throw " + rx(s["e"]) + ";"
+        return "throw " + _top(s["e"]) + ";"
     if t == "try":
         out = "try " + rs(s["b"])
         if s.get("h"):
@@ -592,8 +621,8 @@ def rs(s):
     if t == "switch":
         cs = []
         for c in s["cases"]:
-            cs.append(("case " + rx(c["test"]) + ":" if c.get("test") else "default:") + " " + " ".join(rs(x) for x in c["body"]))
-        return "switch (" + rx(s["d"]) + ") { " + " ".join(cs) + " }"
+            cs.append(("case " + _top(c["test"]) + ":" if c.get("test") else "default:") + " " + " ".join(rs(x) for x in c["body"]))
+        return "switch (" + _top(s["d"]) + ") { " + " ".join(cs) + " }"
     if t == "print":
         return "print(" + _args(s["args"]) + ");"
     raise ValueError("not a statement: " + t)
